@@ -23,6 +23,7 @@ package ipnisync
 //@   loop 1: invariant s.noPath == (old(s.noPath) || fellBack) && (fellBack ==> !old(s.noPath) && s.plainHTTP) && nonnilelems(s.urls) && s.client != nil
 //@   loop 2: invariant s.noPath == (old(s.noPath) || fellBack) && (fellBack ==> !old(s.noPath) && s.plainHTTP) && nonnilelems(s.urls) && s.client != nil && fetchURL != nil
 //@   ensures result != nil ==> s.noPath == old(s.noPath)
+//@   ensures nonnilelems(s.urls)
 //@   ensures s.noPath != old(s.noPath) ==> s.noPath && s.plainHTTP
 //@   at call cb#1: assert resp.StatusCode == 200 && arg0 == resp.Body
 //@   ensures-local count("call:cb") <= 1
@@ -71,6 +72,8 @@ package ipnisync
 //@ func (*Syncer).fetchBlock
 //@   property C02
 //@   requires s != nil && s.sync != nil && s.client != nil && ctx != nil && nonnilelems(s.urls)
+//@   modifies s.rootURL, s.urls, s.noPath
+//@   ensures nonnilelems(s.urls)
 //@   ghost present := false
 //@   at call Load#1: after ghost present := result0 != nil && result1 == nil
 //@   ensures-local present ==> result == nil && count("call:fetch") == 0
@@ -88,3 +91,50 @@ package ipnisync
 //@ func NewSync
 //@   property C15
 //@   ensures result != nil && isfresh(result)
+
+// ---------------------------------------------------------------------------
+// C01/C02: which blocks reach the block hook
+
+// The read opener handed to the traversal: a block is first fetched (fetchBlock: verified
+// against its CID, or found locally), then read from the local store; its CID is recorded -
+// once, at the end of the list - exactly when that local read succeeded, and not at all when
+// the fetch failed (the local store is then not even consulted).
+// ASSUMED at the boundary to ipld-prime: links handed to a read opener are cidlink.Link values.
+//@ func (*Syncer).walkFetch$1
+//@   property C02 C01
+//@   requires s != nil && s.sync != nil && s.client != nil && ctx != nil && nonnilelems(s.urls)
+//@   assumes typeis(l, "cidlink.Link")
+//@   ghost fetchFailed := false
+//@   at call fetchBlock#1: assert str(arg2.str) == payload(l)
+//@   at call fetchBlock#1: after ghost fetchFailed := result != nil
+//@   ensures-local count("call:fetchBlock") == 1
+//@   ensures-local fetchFailed ==> result1 != nil && count("call:StorageReadOpener") == 0 && len(traversalOrder) == old(len(traversalOrder))
+//@   ensures-local result1 != nil ==> len(traversalOrder) == old(len(traversalOrder))
+//@   ensures-local result1 == nil ==> len(traversalOrder) == old(len(traversalOrder)) + 1 && str(traversalOrder[len(traversalOrder) - 1].str) == payload(l)
+//@   ensures-local forall(j, 0, old(len(traversalOrder)), traversalOrder[j] == old(traversalOrder[j]))
+
+// walkFetch returns the list the read opener recorded (the traversal engine, which decides what is
+// walked, is a dependency: it runs the opener, so the list is havocked across its calls); an error
+// returns no list.
+//@ func (*Syncer).walkFetch
+//@   property C02 C01
+//@   requires s != nil && s.sync != nil && s.client != nil && ctx != nil && nonnilelems(s.urls)
+//@   modifies s.rootURL, s.urls, s.noPath
+//@   at call Load#1: after havoc traversalOrder
+//@   at call WalkMatching#1: after havoc traversalOrder
+//@   ensures result1 != nil ==> len(result0) == 0
+//@   ensures-local result1 == nil ==> result0 == traversalOrder
+
+// Sync: the hook is called only after the whole walk has succeeded, once for every CID the walk
+// recorded, in that order, with the publisher's ID; a failure before that calls no hook.
+//@ func (*Syncer).Sync
+//@   property C02 C01
+//@   requires s != nil && s.sync != nil && s.client != nil && ctx != nil && nonnilelems(s.urls)
+//@   ghost walked := false
+//@   at call walkFetch#1: assert arg2 == nextCid
+//@   at call walkFetch#1: after ghost walked := result1 == nil
+//@   at call blockHook#1: assert walked && arg0 == s.peerInfo.ID && arg1 == cids[rangeindex]
+//@   loop 1: exhaustive
+//@   loop 1: iteration ensures itercount("call:blockHook") == 1
+//@   ensures-local !walked ==> result != nil && count("call:blockHook") == 0
+//@   ensures-local walked ==> result == nil
